@@ -510,7 +510,7 @@ def gen_stft(tier, rng):
             n += 1
             if tier == "quick" and (n % 3):
               continue
-            style = STYLES[n % 3]
+            style = STYLES[(n // 3) % 3]
             items = [["size", ["nat", size]], ["ola", ["none"]]]
             if hop is not None: items.append(["hop", ["nat", hop]])
             if wk == "none": items.append(["wnd", ["none"]])
